@@ -33,6 +33,37 @@ def parse_result(path):
     return res
 
 
+def merge_history(prop, m, out_root):
+    """First recorded verification (seeded/results/r-<id>.first.txt, kept from the first
+    collection on) and the latest one (/tmp/ver, copied to r-<id>.latest.txt)."""
+    rdir = os.path.join(out_root, "results")
+    os.makedirs(rdir, exist_ok=True)
+    cur = os.path.join(VER, f"r-{prop}-{m}.txt")
+    first = os.path.join(rdir, f"r-{prop}-{m}.first.txt")
+    latest = os.path.join(rdir, f"r-{prop}-{m}.latest.txt")
+    legacy = os.path.join(rdir, f"r-{prop}-{m}.txt")
+    if os.path.exists(legacy) and not os.path.exists(first):
+        os.rename(legacy, first)
+    elif os.path.exists(legacy):
+        os.remove(legacy)
+    if os.path.exists(cur):
+        if not os.path.exists(first):
+            shutil.copy(cur, first)
+        shutil.copy(cur, latest)
+    a = parse_result(first)
+    b = parse_result(latest) if os.path.exists(latest) else a
+    res = dict(b)
+    if res["demo_unchanged"] is None:
+        for k in ("demo_unchanged", "tests_with_patch", "tests_summary", "demo_with_patch"):
+            if k in a:
+                res[k] = a[k]
+    res["first_checks"] = a["checks"]
+    merged = dict(a["checks"])
+    merged.update({c: r for c, r in b["checks"].items() if r["rc"] in (0, 1) or c not in merged})
+    res["checks"] = merged
+    return res
+
+
 def main():
     out_root = os.path.join(VERIF, "seeded")
     os.makedirs(out_root, exist_ok=True)
@@ -40,7 +71,7 @@ def main():
     for d in sorted(glob.glob(os.path.join(SEED, "C*", "out", "m*"))):
         prop = d.split("/")[3]
         m = os.path.basename(d)
-        res = parse_result(os.path.join(VER, f"r-{prop}-{m}.txt"))
+        res = merge_history(prop, m, out_root)
         confirmed = (res["demo_unchanged"] == 0 and res["tests_with_patch"] == 0 and res["demo_with_patch"] == 1)
         if not confirmed:
             rows.append((prop, m, "NOT CONFIRMED", res, ""))
@@ -62,6 +93,7 @@ def main():
                           "demo_with_patch_exit": res["demo_with_patch"]},
             "ran": [f"tools/verify_seed.sh {prop} <dir> " + " ".join(sorted(res["checks"]))],
             "checks": res["checks"],
+            "checks_at_first_verification": res.get("first_checks", {}),
             "caught_by": caught, "not_caught_by": missed, "machinery_failure": broken,
         }
         with open(os.path.join(dst, "meta.json"), "w") as f:
@@ -73,11 +105,14 @@ def main():
                 "331 pinned tests still pass, produced by a sub-agent that saw only the property text and a scratch\n"
                 "worktree; `meta.json` records how it was confirmed (tools/verify_seed.sh) and which checks caught it\n"
                 "(quick tier, mutant substituted through PYTHONPATH).\n\n"
-                "| change | confirmed | caught by (quick) | not caught by | note |\n|---|---|---|---|---|\n")
+                "`first` = the first verification of the change, `now` = the latest one (after the checks\n"
+                "were strengthened where they had missed it).\n\n"
+                "| change | confirmed | caught first | caught now | not caught now | note |\n|---|---|---|---|---|---|\n")
         for prop, m, status, res, first in rows:
+            c0 = ", ".join(sorted(c for c, r in res.get("first_checks", {}).items() if r["rc"] == 1)) or "-"
             caught = ", ".join(sorted(c for c, r in res["checks"].items() if r["rc"] == 1)) or "-"
             missed = ", ".join(sorted(c for c, r in res["checks"].items() if r["rc"] == 0)) or "-"
-            f.write(f"| {prop}-{m} | {status} | {caught} | {missed} | {first} |\n")
+            f.write(f"| {prop}-{m} | {status} | {c0} | {caught} | {missed} | {first} |\n")
     print(f"{len(rows)} seeded changes collected")
 
 
